@@ -277,6 +277,9 @@ func checkC14(c *core.Ctx, r *core.Report) {
 			"the metrics meta entry is removed last", "the durable metrics meta entry is not removed last")
 	}
 
+	// ---------------------------------------------------------------- (2b) every victim is examined
+	c14EveryVictimExamined(c, r, []*ssa.Function{dsd, dmd})
+
 	// ---------------------------------------------------------------- (3)
 	rmList := metricsRemovalHost(c)
 	{
@@ -741,4 +744,157 @@ func checkDecodeTargetFresh(c *core.Ctx, r *core.Report) {
 		}
 	}
 	r.Floor("LIVE", "per-line JSON decodes in the metadata file scans", n, 2)
+}
+
+// c14EveryVictimExamined — clause (2b).  The delete steps work through a batch of victims (a map or slice handed down
+// from DeleteSegmentData / DeleteMetricsSegmentData).  In the functions of the delete cone (the two entry points and
+// what they reach through static calls, three levels, inside the repository) a loop that ranges over a collection the
+// function was given as a parameter is not left by a `return` that reports no error: one victim that needs no work
+// (already gone from memory, file already removed) must not make the step skip the victims after it — their files and
+// durable entries are removed by the other steps, and they would stay visible to searches until the restart.
+// (`continue` and `break` out of a search are not returns; an error return abandons the step visibly.)
+func c14EveryVictimExamined(c *core.Ctx, r *core.Report, roots []*ssa.Function) {
+	cone := map[*ssa.Function]bool{}
+	var order []*ssa.Function
+	var add func(fn *ssa.Function, depth int)
+	add = func(fn *ssa.Function, depth int) {
+		if fn == nil || fn.Blocks == nil || cone[fn] || depth > 3 || !core.IsRepoPkg(core.FnPkgPath(fn)) {
+			return
+		}
+		cone[fn] = true
+		order = append(order, fn)
+		for _, ci := range core.CallsIn(fn) {
+			add(ci.Common().StaticCallee(), depth+1)
+		}
+	}
+	for _, f := range roots {
+		add(f, 0)
+	}
+	fromParam := func(v ssa.Value) bool {
+		for d := 0; d < 4; d++ {
+			switch x := v.(type) {
+			case *ssa.Parameter:
+				return true
+			case *ssa.ChangeType:
+				v = x.X
+			case *ssa.Slice:
+				v = x.X
+			default:
+				return false
+			}
+		}
+		return false
+	}
+	// a return that abandons the step visibly: it reports an error, or — in a function without an error result —
+	// it lies on the edge where some error value was found non-nil (`if err != nil { log; return }`)
+	errT := types.Universe.Lookup("error").Type()
+	abandons := func(fn *ssa.Function, ret *ssa.Return) bool {
+		if core.ErrResultIndex(fn) >= 0 {
+			return core.ReturnSuccess(ret) == core.No
+		}
+		for b := ret.Block(); b != nil && b.Idom() != nil; b = b.Idom() {
+			idom := b.Idom()
+			ifi, ok := core.LastIf(idom)
+			if !ok || len(b.Preds) != 1 {
+				continue
+			}
+			bo, ok := ifi.Cond.(*ssa.BinOp)
+			if !ok || (bo.Op != token.NEQ && bo.Op != token.EQL) || !core.IsNilConst(bo.Y) || !types.Identical(bo.X.Type(), errT) {
+				continue
+			}
+			nonNil := idom.Succs[0]
+			if bo.Op == token.EQL {
+				nonNil = idom.Succs[1]
+			}
+			if nonNil == b {
+				return true
+			}
+		}
+		return false
+	}
+	nLoops := 0
+	for _, fn := range order {
+		k := 0
+		for _, l := range core.Loops(fn) {
+			// a loop over a parameter: `range p` (map / string: a Range instruction; slice: len(p) in the header test)
+			over := false
+			for _, in := range l.Header.Instrs {
+				switch x := in.(type) {
+				case *ssa.Next:
+					if rg, ok := x.Iter.(*ssa.Range); ok && fromParam(rg.X) {
+						over = true
+					}
+				case *ssa.BinOp:
+					for _, side := range []ssa.Value{x.X, x.Y} {
+						if call, ok := side.(*ssa.Call); ok {
+							if bi, ok := call.Call.Value.(*ssa.Builtin); ok && bi.Name() == "len" && fromParam(call.Call.Args[0]) {
+								over = true
+							}
+						}
+					}
+				}
+			}
+			if !over {
+				// go/ssa evaluates len(p) of a slice range before the loop
+				for _, p := range l.Header.Preds {
+					if l.Body[p] {
+						continue
+					}
+					for _, in := range p.Instrs {
+						if call, ok := in.(*ssa.Call); ok {
+							if bi, ok := call.Call.Value.(*ssa.Builtin); ok && bi.Name() == "len" && fromParam(call.Call.Args[0]) {
+								if refs := call.Referrers(); refs != nil {
+									for _, u := range *refs {
+										if bo, ok := u.(*ssa.BinOp); ok && bo.Block() == l.Header {
+											over = true
+										}
+									}
+								}
+							}
+						}
+					}
+				}
+			}
+			if !over {
+				continue
+			}
+			nLoops++
+			k++
+			construct := fmt.Sprintf("%s:loop-over-the-batch#%d-examines-every-element", shortFn(fn), k)
+			var bad *ssa.Return
+			for b := range l.Body {
+				if b == l.Header {
+					continue
+				}
+				if ret, ok := b.Instrs[len(b.Instrs)-1].(*ssa.Return); ok {
+					if abandons(fn, ret) {
+						continue
+					}
+					if bad == nil || ret.Pos() < bad.Pos() {
+						bad = ret
+					}
+				}
+			}
+			// returns in blocks outside the natural loop body but reached only from it (an `if .. { return }` arm)
+			for _, e := range l.ExitEdges() {
+				if e[0] == l.Header || e[1] == nil {
+					continue
+				}
+				if ret, ok := e[1].Instrs[len(e[1].Instrs)-1].(*ssa.Return); ok && len(e[1].Preds) == 1 {
+					if abandons(fn, ret) {
+						continue
+					}
+					if bad == nil || ret.Pos() < bad.Pos() {
+						bad = ret
+					}
+				}
+			}
+			if bad != nil {
+				r.Violation("GUARD", construct, c.Pos(bad.Pos()), "a delete step returns from inside its loop over the batch without reporting an error: the elements after this one are not processed, although the other steps remove their files and durable entries — e.g. deleted segments stay in the in-memory index and keep being offered to searches until the restart")
+			} else {
+				r.OK("GUARD", construct, c.Pos(l.Header.Instrs[0].Pos()), "the loop is left only by exhaustion, break, or an error return")
+			}
+		}
+	}
+	r.Floor("GUARD", "loops over a batch of victims in the delete cone", nLoops, 3)
 }
